@@ -13,13 +13,23 @@ VALIDATORS = ['_validate_schema_named_types', '_validate_object_follow_interface
 ErrorsOf = z3.Function('ErrorsReportedBy', V, V, V)       # (schema, rule name): the list that rule validator returns (each has / will have its own contract)
 
 
+EXTENSION_VALIDATORS = ['_validate_enum_extensions', '_validate_input_object_extensions', '_validate_object_extensions', '_validate_interface_extensions',
+                        '_validate_scalar_extensions', '_validate_union_extensions', '_validate_schema_extensions']
+
+
 class ValidateAggregator(Contract):
-    """GraphQLSchema._validate: every rule validator runs, and the schema is refused (GraphQLSchemaError) exactly when at least one of them reported
-    an error -- no reported violation is dropped on the way to Engine.cook"""
+    """GraphQLSchema._validate / _validate_extensions: every rule validator of the list runs, and the schema is refused (GraphQLSchemaError) exactly
+    when at least one of them reported an error -- no reported violation is dropped on the way to Engine.cook"""
     key = S_ + '_validate'
     property_ids = ('C12',)
     params = ['self']
     self_class = 'GraphQLSchema'
+    validators = VALIDATORS
+    returns_true = True
+
+    def __init__(self, key=None, validators=None, returns_true=True):
+        if key is not None:
+            self.key, self.validators, self.returns_true = key, validators, returns_true
     unroll_limit = 16          # the loop over the literal list of rule validators is unrolled
     # message text is opaque (string formatting of a list of str never raises)
     callee_models = {'tartiflette/schema/schema.py::_format_schema_error_message': lambda en, st, a, kw: [(st, V.Str(fresh('msg', IntS)))]}
@@ -30,7 +40,7 @@ class ValidateAggregator(Contract):
 
     def pre(self, A, st):
         s = A['self']
-        return [('schema', z3.And(exact(s, 'GraphQLSchema'), V.oref(s) >= 0))] + [(f"rule_{v}", V.is_List(ErrorsOf(s, S(v)))) for v in VALIDATORS]
+        return [('schema', z3.And(exact(s, 'GraphQLSchema'), V.oref(s) >= 0))] + [(f"rule_{v}", V.is_List(ErrorsOf(s, S(v)))) for v in self.validators]
 
     def ghost0(self, A):
         return {'ran': V.List(VL.nil)}
@@ -49,7 +59,7 @@ class ValidateAggregator(Contract):
     def call_model(self, en, st, f, a, kw):
         f = z3.simplify(f)
         out = []
-        for v in VALIDATORS:
+        for v in self.validators:
             q = en.fork(st, f == V.Fun(z3.IntVal(-7), mklist(V.Pair(S('rule'), S(v)))))
             if q is not None:
                 out += self._run(v)(en, q, a, kw)
@@ -57,11 +67,11 @@ class ValidateAggregator(Contract):
 
     def post(self, A, st0, out):
         s = A['self']
-        some = z3.Or(*[z3.Not(VL.is_nil(V.items(ErrorsOf(s, S(v))))) for v in VALIDATORS])
-        ran = ('every_checked_rule_ran_once', out.st.ghost['ran'] == V.List(mklist(*[S(v) for v in VALIDATORS])))
+        some = z3.Or(*[z3.Not(VL.is_nil(V.items(ErrorsOf(s, S(v))))) for v in self.validators])
+        ran = ('every_checked_rule_ran_once', out.st.ghost['ran'] == V.List(mklist(*[S(v) for v in self.validators])))
         if out.kind == 'raise':
             return [ran, ('refused_only_for_a_reported_violation', z3.And(some, exact(out.value, 'GraphQLSchemaError')))]
-        return [ran, ('accepted_only_without_any_reported_violation', z3.And(z3.Not(some), out.value == V.Bool(True)))]
+        return [ran, ('accepted_only_without_any_reported_violation', z3.And(z3.Not(some), out.value == (V.Bool(True) if self.returns_true else V.None_)))]
 
 
 class ValidateRootTypes(Contract):
@@ -184,7 +194,7 @@ class ValidateUnions(Contract):
         return [('reports_iff_some_union_contains_itself', z3.And(V.is_List(out.value), VL.is_nil(V.items(out.value)) == UnionsOk2(tl, length(tl))))]
 
 
-CONTRACTS = [ValidateAggregator(), ValidateRootTypes(), ValidateScalarsImplemented(), ValidateUnions()]
+CONTRACTS = [ValidateAggregator(), ValidateAggregator(S_ + '_validate_extensions', EXTENSION_VALIDATORS, False), ValidateRootTypes(), ValidateScalarsImplemented(), ValidateUnions()]
 LEMMAS = []
 
 
@@ -515,3 +525,72 @@ class ValidateFieldFollowsInterface(Contract):
 
 CONTRACTS.append(ValidateFieldFollowsInterface())
 
+
+
+# ---- GraphQLSchema.bake: no schema gets baked past a refusing validator
+class SchemaBake(Contract):
+    """GraphQLSchema.bake: the extension rules are validated before anything is merged, the schema rules after the types are baked; bake completes
+    only if BOTH aggregators accepted -- a GraphQLSchemaError of either propagates to the caller (Engine.cook), whatever the baking steps in between
+    swallow"""
+    key = S_ + 'bake'
+    property_ids = ('C12',)
+    params = ['self', 'custom_default_resolver', 'custom_default_type_resolver', 'custom_default_arguments_coercer', 'coerce_list_concurrently', 'coerce_parent_concurrently']
+    self_class = 'GraphQLSchema'
+    modifies_fields = ('default_type_resolver', 'default_arguments_coercer', 'coerce_list_concurrently', 'coerce_parent_concurrently', '_operation_types', 'queryType',
+                       'mutationType', 'subscriptionType', 'directives', 'types')
+    merge_ifs = 'always'
+
+    @property
+    def loops(self):
+        return {0: LoopContract(lambda en, st, k, st0: {'types_is_a_list': V.is_List(fld(st, 'types', self.A['self']))}, modifies_fields=('types',))}
+
+    def args(self, en, names):
+        self.A = super().args(en, names)
+        self.ext_refused, self.rules_refused = fresh('extension_rules_refuse', BoolS), fresh('schema_rules_refuse', BoolS)
+        return self.A
+
+    def pre(self, A, st):
+        s = A['self']
+        return [('schema', z3.And(exact(s, 'GraphQLSchema'), V.oref(s) >= 0, V.is_Dict(attr0(s, 'type_definitions')), AllStrKeys(V.ditems(attr0(s, 'type_definitions'))),
+                                  V.is_Dict(attr0(s, '_directive_definitions')), V.is_List(attr0(s, 'types')),
+                                  V.is_Str(attr0(s, 'query_operation_name')), V.is_Str(attr0(s, 'mutation_operation_name')), V.is_Str(attr0(s, 'subscription_operation_name')))),
+                ('flags', z3.And(*[z3.Or(A[p] == V.None_, V.is_Bool(A[p])) for p in ('coerce_list_concurrently', 'coerce_parent_concurrently')])),
+                ('callables', z3.And(*[z3.Or(A[p] == V.None_, V.is_Fun(A[p])) for p in ('custom_default_resolver', 'custom_default_type_resolver', 'custom_default_arguments_coercer')]))]
+
+    def ghost0(self, A):
+        return {'steps': V.List(VL.nil)}
+
+    def _step(self, name, refuse=None, may_fail=False):
+        def run(en, s, a, kw):
+            s = s.put_ghost('steps', V.List(snoc(V.items(s.ghost['steps']), S(name))))
+            e = V.Obj(fresh('ecls', IntS), fresh('eref', IntS))
+            if refuse is not None:
+                return en.branches(s, [(z3.Not(refuse), V.None_), (z3.And(refuse, exact(e, 'GraphQLSchemaError'), V.oref(e) >= 0), Raise(e))])
+            if may_fail:
+                fails = fresh(name + '_fails', BoolS)
+                return en.branches(s, [(z3.Not(fails), V.None_), (z3.And(fails, inst(e, 'Exception'), V.oref(e) >= 0), Raise(e))])
+            return [(s, V.None_)]
+        return run
+
+    def getattr_hook(self, en, st, v, attr):
+        if z3.eq(v, self.A['self']):
+            table_ = {'_inject_introspection_fields': self._step('_inject_introspection_fields'), '_validate_extensions': self._step('_validate_extensions', self.ext_refused),
+                      '_bake_extensions': self._step('_bake_extensions', may_fail=True), '_bake_types': self._step('_bake_types', may_fail=True),
+                      '_validate': self._step('_validate', self.rules_refused)}
+            if attr in table_:
+                return [(st, PyFunc(attr, table_[attr]))]
+        return None
+
+    callee_models = {'tartiflette/schema/registry.py::SchemaRegistry.bake_registered_objects': lambda en, st, a, kw: [(st.put_ghost('steps', V.List(snoc(V.items(st.ghost['steps']), S('bake_registered_objects')))), V.None_)]}
+
+    def post(self, A, st0, out):
+        steps = out.st.ghost['steps']
+        order = ['_inject_introspection_fields', '_validate_extensions', '_bake_extensions', 'bake_registered_objects', '_bake_types', '_validate']
+        if out.kind == 'raise':
+            return [('only_a_refusing_validator_stops_the_bake', z3.And(z3.Or(self.ext_refused, self.rules_refused), exact(out.value, 'GraphQLSchemaError'))),
+                    ('nothing_is_merged_after_a_refused_extension', z3.Implies(self.ext_refused, steps == V.List(mklist(*[S(x) for x in order[:2]]))))]
+        return [('both_rule_sets_accepted', z3.And(z3.Not(self.ext_refused), z3.Not(self.rules_refused))),
+                ('validated_in_order', steps == V.List(mklist(*[S(x) for x in order])))]
+
+
+CONTRACTS.append(SchemaBake())
